@@ -509,3 +509,49 @@ Section Splits.
     Qed.
   End CandGreedy.
 End Splits.
+
+(** *** [waccepts] depends on the language only *)
+Section Lang.
+  Variable en : env.
+
+  Inductive wmatchr : list wleaf -> string -> string -> Prop :=
+  | wmr_nil w : wmatchr [] w w
+  | wmr_cons a ls w o r1 rest : In (o, r1) (wconsume en a w) -> wmatchr ls r1 rest -> wmatchr (a :: ls) w rest.
+
+  Lemma sp_rpath e w e' dn rest : sp en e w e' dn rest -> exists ls, rpath e ls e' /\ wmatchr ls w rest.
+  Proof.
+    induction 1 as [e w | e w a k o r1 e' d rest Hlf Hc _ IH].
+    - exists []. split; constructor.
+    - destruct IH as [ls [Hp Hm]]. exists (a :: ls). split; [econstructor; eassumption | econstructor; eassumption].
+  Qed.
+
+  Lemma rpath_sp e ls e' : rpath e ls e' -> forall w rest, wmatchr ls w rest -> exists dn, sp en e w e' dn rest.
+  Proof.
+    induction 1 as [r | r a k ls r' Hlf _ IH]; intros w rest Hm.
+    - inversion Hm; subst. eexists. constructor.
+    - inversion Hm as [| a' ls' w' o r1 rest' Hc Hm']; subst. destruct (IH _ _ Hm') as [dn Hsp].
+      eexists. econstructor; eassumption.
+  Qed.
+
+  Lemma waccepts_lang x w : waccepts en x w = true <-> exists ls, RxFacts.denotes x ls /\ wmatchr ls w EmptyString.
+  Proof.
+    unfold waccepts, wsplits_of. rewrite existsb_exists. split.
+    - intros [[[e' dn'] rest'] [Hin H]]. apply andb_true_iff in H. destruct H as [Hr Hn]. destruct rest'; [| discriminate].
+      destruct (wsplits_sp en _ _ _ _ _ _ _ Hin) as [d2 [Hsp _]]. destruct (sp_rpath _ _ _ _ _ Hsp) as [ls [Hp Hm]].
+      exists ls. split; [| exact Hm]. rewrite <- (app_nil_r ls). eapply rpath_denotes; [exact Hp | apply nullable_denotes; exact Hn].
+    - intros [ls [Hd Hm]]. rewrite <- (app_nil_r ls) in Hd. apply denotes_rpath in Hd. destruct Hd as [e' [Hp Hn]].
+      destruct (rpath_sp _ _ _ Hp _ _ Hm) as [dn Hsp].
+      exists (e', dn, EmptyString). split.
+      + pose proof (sp_wsplits en _ _ _ _ _ Hsp (String.length w) EmptyString (le_n _)) as H. cbn [append] in H. exact H.
+      + cbn. apply nullable_denotes. exact Hn.
+  Qed.
+
+  Lemma waccepts_same_lang x0 x1 w :
+    (forall ls, RxFacts.denotes x0 ls <-> RxFacts.denotes x1 ls) -> waccepts en x0 w = waccepts en x1 w.
+  Proof.
+    intro H.
+    assert (E : waccepts en x0 w = true <-> waccepts en x1 w = true).
+    { rewrite !waccepts_lang. split; intros [ls [Hd Hm]]; exists ls; (split; [apply H; exact Hd | exact Hm]). }
+    destruct (waccepts en x0 w), (waccepts en x1 w); try reflexivity; [symmetry; apply E; reflexivity | apply E; reflexivity].
+  Qed.
+End Lang.
